@@ -24,13 +24,20 @@ void h_count(void) {
     EbObjectWrapper *w[TU_N]; EbBufferHeaderType *b[TU_N];
     ctx->packetization_reorder_queue = malloc(sizeof(PacketizationReorderEntry *) * QN);
     __CPROVER_assume(ctx->packetization_reorder_queue != NULL);
-    unsigned head = ctx->packetization_reorder_queue_head_index;
-    __CPROVER_assume(head < QN);
+    /* head position: the three positions next to the physical end of the queue (wrap-around inside the unit), the
+     * start and one interior position; a fully symbolic head costs ~8 minutes through the 2048-slot pointer array */
+#ifdef HEAD_CONST
+    unsigned head = HEAD_CONST;
+#else
+    unsigned hsel;
+    unsigned head = hsel == 0 ? 0 : hsel == 1 ? QN - 1 : hsel == 2 ? QN - 2 : hsel == 3 ? QN - 3 : 1000;
+#endif
+    ctx->packetization_reorder_queue_head_index = head;
     for (int k = 0; k < TU_N; k++) {
         e[k] = malloc(sizeof(PacketizationReorderEntry)); w[k] = malloc(sizeof(EbObjectWrapper)); b[k] = malloc(sizeof(EbBufferHeaderType));
         __CPROVER_assume(e[k] && w[k] && b[k]);
         w[k]->object_ptr = b[k];
-        __CPROVER_assume(e[k]->output_stream_wrapper_ptr == NULL || e[k]->output_stream_wrapper_ptr == w[k]);
+        { _Bool incomplete; e[k]->output_stream_wrapper_ptr = incomplete ? NULL : w[k]; }  /* assigned, not assumed: the verifier dereferences by value sets */
         ctx->packetization_reorder_queue[(head + k) % QN] = e[k];
         __CPROVER_assume(b[k]->n_filled_len < (1u << 24));
     }
@@ -50,5 +57,6 @@ void h_count(void) {
     __CPROVER_assert((n == 0) == (incomplete_first != 0), "returns 0 exactly when an incomplete entry comes before the first shown one");
     __CPROVER_assert(n == 0 || size == sum, "data_size is the byte total of the counted frames");
     __CPROVER_assert(0, "CANARY returns");
-    __CPROVER_assert(!(n == 3 && head == QN - 2), "CANARY a temporal unit that wraps around the end of the queue");
+    __CPROVER_assert(!(n == 3), "CANARY a three-frame temporal unit (heads 2046, 2047: wraps around the end of the queue)");
+    __CPROVER_assert(!(n == TU_N), "CANARY a full-length temporal unit (heads above 2048-TU_N: wraps around the end of the queue)");
 }
